@@ -355,7 +355,18 @@ class _Helper:
             return False
         if len(rets) == 1 and rets[0] is body[-1]:
             self.kind = 'value'
+            self.split = len(body) - 1
             return True
+        # statements without returns, then a chain of `if c: return a` ...
+        # `return b` that denotes one expression
+        for k in range(1, len(body)):
+            if any(isinstance(x, ast.Return) for st in body[:k]
+                   for x in ast.walk(st)):
+                break
+            if _as_expr(body[k:]) is not None:
+                self.kind = 'value'
+                self.split = k
+                return True
         if len(rets) == 1 and _tail_return(body) is rets[0]:
             # `try: return e / except X: raise ...` as the last statement:
             # the return is in tail position and every other way out raises
@@ -473,8 +484,9 @@ def _expand(helper: _Helper, binding: dict, caller_names: set, tag: str,
         value = _as_expr(body)
         body = []
     elif helper.kind == 'value':
-        value = body[-1].value
-        body = body[:-1]
+        k = getattr(helper, 'split', len(body) - 1)
+        value = _as_expr(body[k:])
+        body = body[:k]
     elif helper.kind == 'tail':
         # the site statement takes the place of the tail `return e`
         ret = _tail_return(body)
@@ -1490,6 +1502,28 @@ def _t0_canon_stmts(tree) -> int:
                         for t in (call, gen, call.func):
                             ast.copy_location(t, s)
                         out.append(new)
+                        i += 1
+                        n += 1
+                        continue
+                # ---- return not X  ->  if X: return False ; return True
+                #      return bool(X) -> if X: return True ; return False
+                if isinstance(s, ast.Return) and s.value is not None:
+                    v, first = s.value, None
+                    if isinstance(v, ast.UnaryOp) and isinstance(
+                            v.op, ast.Not):
+                        cond, first = v.operand, False
+                    elif isinstance(v, ast.Call) and isinstance(
+                            v.func, ast.Name) and v.func.id == 'bool' and \
+                            len(v.args) == 1 and not v.keywords:
+                        cond, first = v.args[0], True
+                    if first is not None:
+                        r1 = ast.Return(value=ast.Constant(value=first))
+                        r2 = ast.Return(value=ast.Constant(value=not first))
+                        new = ast.If(test=cond, body=[r1], orelse=[])
+                        for t in (new, r1, r1.value, r2, r2.value):
+                            ast.copy_location(t, s)
+                        out.append(new)
+                        out.append(r2)
                         i += 1
                         n += 1
                         continue
